@@ -88,7 +88,7 @@ func (p *Program) functionsFor(prop string) []string {
 	var out []string
 	for _, n := range p.CS.Order {
 		c := p.CS.Funcs[n]
-		if c.Kind == "extern" || c.Kind == "iface" || c.Kind == "callback" || c.Trusted {
+		if c.Kind == "extern" || c.Kind == "iface" || c.Kind == "callback" || c.Trusted || c.Inline {
 			continue
 		}
 		use := hasProp(c.Props, prop) || hasProp(c.NoPanicP, prop) || hasProp(c.FrameP, prop)
@@ -135,9 +135,9 @@ func cmdCheck(args []string) {
 	t0 := time.Now()
 	vdir := verifDir()
 	seed, _ := strconv.Atoi(os.Getenv("VERIF_SEED"))
-	timeout := 20
+	timeout := 30
 	if *tier == "thorough" {
-		timeout = 90
+		timeout = 120
 	}
 	if v, err := strconv.Atoi(os.Getenv("RTV_TIMEOUT")); err == nil && v > 0 {
 		timeout = v
@@ -169,7 +169,11 @@ func cmdCheck(args []string) {
 		frs = append(frs, p.verifyFuncViews(n)...)
 	}
 	filter := func(o *Obl) bool { return hasProp(o.Props, *prop) }
-	dischargeAll(frs, dir, timeout, runtime.NumCPU(), filter)
+	par := runtime.NumCPU() * 5 / 8 // the staged portfolio may run three solvers per obligation: leave headroom
+	if par < 2 {
+		par = 2
+	}
+	dischargeAll(frs, dir, timeout, par, filter)
 
 	known := loadKnown(vdir)
 	lock := loadLock(vdir)
